@@ -145,6 +145,42 @@ fn case(rec: &mut Rec, ctx: &Ctx, idx: u64, rng: &mut ChaCha20Rng) {
     }
     return;
   }
+  // --- a receiver sees refused collections too; none of them may influence the
+  //     honest recoveries that follow on the same thread
+  if idx % 3 == 1 {
+    use crate::layout::AdssShare as L;
+    let base = parsed[0].clone();
+    let mk = |f: &dyn Fn(&mut L, usize)| -> Vec<Share> {
+      (0..(t as usize).max(2))
+        .filter_map(|i| {
+          let mut a = parsed[i.min(parsed.len() - 1)].clone();
+          f(&mut a, i);
+          Share::from_bytes(&a.encode())
+        })
+        .collect()
+    };
+    let no_y = mk(&|a, _| a.s.ys.clear());
+    let mixed = mk(&|a, i| {
+      if i % 2 == 1 {
+        a.s.ys.push([1u8; 24]);
+      }
+    });
+    let bad_mac = mk(&|a, _| a.j[0] ^= 1);
+    let dup_only = mk(&|a, _| a.s = base.s.clone());
+    let t_zero = mk(&|a, _| a.t = 0);
+    for (what, coll) in [("no-y", no_y), ("mixed-y", mixed), ("bad-mac", bad_mac), ("duplicates", dup_only), ("threshold-0", t_zero), ("empty", vec![])] {
+      rec.ev("refused_recoveries_before_honest");
+      let r = quiet(rec, || recover(&coll).map(|c| c.get_message()).map_err(|e| e.to_string()));
+      if let Some(Ok(mm)) = r {
+        if what != "duplicates" || t > 1 {
+          if mm != m {
+            rec.violation("recover-wrong", format!("a refused-shape collection ({}) recovered {}", what, hex_short(&mm)), rep(json!({"shape": what})));
+            return;
+          }
+        }
+      }
+    }
+  }
   // --- any t distinct shares recover exactly M
   let mut order: Vec<usize> = (0..n).collect();
   let mut recovered: Option<Commune> = None;
